@@ -358,7 +358,7 @@ func runC11(e *env) {
 		// bind messages to AST nodes (desc = m<idx>) and placeholder parts to names
 		nodes := map[int]*ast.MsgNode{}
 		for _, n := range c11MsgNodes(reg) {
-			if k, err := strconv.Atoi(strings.TrimPrefix(n.Desc, "m")); err == nil {
+			if k, err := strconv.Atoi(c11Digits(strings.TrimPrefix(n.Desc, "m"))); err == nil {
 				nodes[k] = n
 			}
 		}
@@ -896,6 +896,15 @@ func runC11(e *env) {
 			}
 		}
 	}
+}
+
+// c11Digits returns the leading decimal digits of s (the index in a generated description "m<idx><more>")
+func c11Digits(s string) string {
+	i := 0
+	for i < len(s) && s[i] >= '0' && s[i] <= '9' {
+		i++
+	}
+	return s[:i]
 }
 
 func c11Head(s string, n int) string {
